@@ -12,6 +12,7 @@ from pyvc import tstr
 from pyvc.tstr import TS, Block, VT, vt_new
 from spec import padding as SP
 from .common import *
+from .C19 import interp_unit  # noqa: F401  (format-spec padding sizes)
 from .renderable import u_render_str  # noqa: F401  (registers the render() unit for C05)
 
 PAD = "padding.py"
